@@ -168,6 +168,7 @@ func (v *vdrRun) monitors() {
 				t = path.Join(psdir, path.Dir(named[i]), t)
 			}
 			t = path.Clean(t)
+			namedAbs = append(namedAbs, t)
 			if strings.HasPrefix(t, psdir+"/") && len(named) < 10000 {
 				named = append(named, v.rel(t))
 				v.hist("named-through-symlink")
